@@ -68,7 +68,9 @@ def suite(crates):
         flt = " | ".join(f"rdeps({c})" for c in crates) if crates else "all()"
     else:
         flt = " | ".join(f"package({c})" for c in sorted(pk))
-    rc, out = sh("cargo nextest run --workspace --no-fail-fast --tool-config-file pb:/w/lib/nextest.toml "
+    # only build what is going to be run (`--workspace` would build every test binary)
+    scope = "--workspace" if "--full" in sys.argv else " ".join(f"-p {c}" for c in sorted(pk))
+    rc, out = sh(f"cargo nextest run {scope} --no-fail-fast --tool-config-file pb:/w/lib/nextest.toml "
                  f"--profile pb --test-threads 8 --offline -E '{flt}' 2>&1 | tail -40", cwd=WT)
     m = re.search(r"(\d+) tests run: (\d+) passed(?: \((\d+) \w+\))?(?:, (\d+) failed)?", out)
     failed = sorted(set(re.findall(r"^\s+(?:FAIL|TIMEOUT|SIGABRT|SIGSEGV)\s+\[[^\]]*\]\s+(?:\(\S+\)\s+)?(\S+)\s+(\S+)\s*$", out, re.M)))
